@@ -466,10 +466,10 @@ func runCase(w *vh.Writer, c Case) obs {
 // generation
 
 type gen struct {
-	r       *vh.Rng
-	serial  int
-	budget  int
-	noThrow int // > 0 inside the finally block of a try that has a catch (a C08 defect of goja lives there)
+	r      *vh.Rng
+	serial int
+	budget int
+	noGen  bool // this program stays outside the region of the open finding F16 (no generator / async resumption)
 }
 
 func (g *gen) id() int { g.serial++; return g.serial }
@@ -498,20 +498,24 @@ func (g *gen) node(depth int, inTry bool) Node {
 		case 1:
 			return Node{T: "probe"}
 		default:
-			if inTry && g.noThrow == 0 {
+			if inTry {
 				return Node{T: "throw"}
 			}
 			return Node{T: "ev", Id: g.id()}
 		}
 	}
 	d := depth - 1
-	switch g.r.Pick(10, 10, 3, 6, 14, 6, 16, 8, 8, 8, 7) {
+	wGen, wAsync := 7, 7
+	if g.noGen {
+		wGen, wAsync = 0, 0
+	}
+	switch g.r.Pick(10, 10, 3, 6, 14, 6, 16, 9, wGen, wAsync, 8) {
 	case 0:
 		return Node{T: "ev", Id: g.id()}
 	case 1:
 		return Node{T: "probe"}
 	case 2:
-		if inTry && g.noThrow == 0 {
+		if inTry {
 			return Node{T: "throw"}
 		}
 		return Node{T: "probe"}
@@ -532,13 +536,7 @@ func (g *gen) node(depth int, inTry bool) Node {
 			n.C = g.body(d, inTry || n.HF)
 		}
 		if n.HF {
-			if n.HC {
-				g.noThrow++
-			}
 			n.F = g.body(d, inTry)
-			if n.HC {
-				g.noThrow--
-			}
 		}
 		return n
 	case 5:
@@ -568,6 +566,7 @@ func (g *gen) node(depth int, inTry bool) Node {
 
 func (g *gen) program() []Node {
 	g.serial = 0
+	g.noGen = g.r.Chance(65)
 	g.budget = 6 + g.r.Intn(22)
 	depth := 1 + g.r.Intn(4)
 	p := g.body(depth, false)
